@@ -188,6 +188,58 @@ def stress_oracle(script, impl):
     return None
 
 
+def translator_extra(spec, ctx, gen_file="AstLoomQueue.lean", notes=("pushNote", "popNote"), what="loom.Queue.Push/Pop",
+                     mode="ast", skip=lambda script, impl: impl.startswith("stress ")):
+    """second correspondence (translator tie): the LTS GENERATED from the source — the AtomicIR semantics
+    (Got/Model/AtomicIR.lean) of the programs tools/srcfacts re-translates from /repo on every run — replays
+    every schedule of the correspondence (driver mode `ast`) and must print what the real code printed under the controlled
+    scheduler, step by step. Validates translator + IR semantics; the Lean theorems C01_translated_source_* tie the
+    generated LTS to the hand-written model."""
+    import shutil
+    ex = ctx.get("ex")
+    cov = ctx["coverage"]
+    notes_found = {}
+    gen = os.path.join(C.LEAN, "Got", "Generated", gen_file)
+    if os.path.exists(gen):
+        for line in open(gen):
+            for n in notes:
+                if line.startswith("def %s " % n):
+                    notes_found[n] = line.split(":=", 1)[1].strip().strip('"')
+    bad_notes = {n: notes_found.get(n, "missing") for n in notes if notes_found.get(n) != "ok"}
+    cov["translation_note"] = "ok" if not bad_notes else "; ".join("%s: %s" % kv for kv in sorted(bad_notes.items()))
+    if bad_notes:
+        ctx["broken"].append({"layer": "L2", "what": "translator: %s is no longer inside the AtomicIR fragment (%s)" % (what, cov["translation_note"])})
+    if bad_notes:      # no translation to replay (the generated bodies are empty)
+        return
+    if not ex or "build_error" in ex or not ex.get("script") or not os.path.exists(C.driver_path(spec.driver)):
+        return
+    d = os.path.join(C.OUT, "run", "%s-ast-%d" % (spec.id, os.getpid()))
+    C.fresh_dir(d)
+    try:
+        sp, op = os.path.join(d, "script.txt"), os.path.join(d, "ast.txt")
+        open(sp, "w").write("".join(x + "\n" for x in ex["script"]))
+        rc, err = C.run_driver(spec.driver, [mode], sp, op)
+        out = open(op, errors="replace").read().split("\n")[:-1]
+        bad = [(i, s, a, b) for i, (s, a, b) in enumerate(zip(ex["script"], ex["impl"], out)) if a != b and not skip(s, a)]
+        cov["ast_interpreter_lines"] = sum(1 for s, a in zip(ex["script"][:len(out)], ex["impl"]) if not skip(s, a))
+        cov["ast_interpreter_mismatches"] = len(bad)
+        if rc != 0 or len(out) != len(ex["script"]):
+            ctx["broken"].append({"layer": "L2", "what": "driver (ast mode) failed rc=%s, %d of %d lines: %s" % (rc, len(out), len(ex["script"]), (err or "")[-300:])})
+        elif bad:
+            ctx["broken"].append({"layer": "L2", "what": "translated source (LTS generated from %s by the AtomicIR semantics) and implementation differ on %d of %d lines"
+                                                          % (what, len(bad), cov["ast_interpreter_lines"]),
+                                  "first": [{"script": s[:300], "impl": a[:300], "ast": b[:300]} for _, s, a, b in bad[:5]]})
+    finally:
+        shutil.rmtree(d, ignore_errors=True)
+
+
+TRANSLATOR_TIE = ("translator tie: tools/srcfacts/minigo_atomic.go (go/ast -> AtomicIR programs of Push/Pop with queueLoad/queueCas "
+                  "inlined, regenerated every run into Got/Generated/AstLoomQueue.lean) and the AtomicIR semantics' reading of the "
+                  "Go constructs (Got/Model/AtomicIR.lean: block scoping, `for {}`/`if`, nil dereference, one atomic access per "
+                  "scheduler step); the LTS generated from the translated source is replayed on every schedule of the "
+                  "correspondence (driver mode `ast`) and must print what the real code printed (ast_interpreter_mismatches)")
+
+
 class C01(Spec):
     id = "C01"
     anchors = ["loom.Queue.Push", "loom.Queue.Pop", "loom.queueLoad", "loom.queueCas", "loom.NewQueue"]
@@ -209,7 +261,8 @@ class C01(Spec):
             "run contains a failed CAS or a helping CAS")
     trusted_base = ["controlled scheduler harness/csched + verifYield hooks in loom/queue.go (build tag verif): one hook per "
                     "atomic access, sequentially consistent atomics (Go memory model for sync/atomic)",
-                    "the oracle's brute-force linearizability checker (checklib/c01.py) for L3"]
+                    "the oracle's brute-force linearizability checker (checklib/c01.py) for L3",
+                    TRANSLATOR_TIE]
     assumptions = ["clients never push nil (a pushed nil is indistinguishable from the empty answer of Pop)",
                    "garbage collection: a node's address is not reused while a thread still holds it (no ABA)"]
 
@@ -247,6 +300,7 @@ class C01(Spec):
         if ex and ex.get("stats", {}).get("explore_failed"):
             ctx["broken"].append({"layer": "L2", "what": "drv_msqueue explore did not produce the schedule sets "
                                                           "(transition coverage of the model's state graph not exercised)"})
+        translator_extra(self, ctx)
 
     def nontrivial(self, script, impl):
         if impl.startswith("stress "):
